@@ -814,16 +814,16 @@ static size_t derSIDDec2(u32 val, const char* oid)
 	do
 		t /= 10, count++;
 	while (t > 0);
-	// сравнение
+	// сравнение (слева направо, чтобы не выйти за конец строки oid)
 	ASSERT(strIsValid(oid));
-	pos = count - 1;
-	if (oid[pos] != '0' + (char)((t = val) % 10))
-		return SIZE_MAX;
-	while (pos--)
 	{
-		t /= 10;
-		if (oid[pos] != '0' + (char)(t % 10))
-			return SIZE_MAX;
+		char digits[10];
+		ASSERT(count <= 10);
+		for (pos = count, t = val; pos--; t /= 10)
+			digits[pos] = '0' + (char)(t % 10);
+		for (pos = 0; pos < count; ++pos)
+			if (oid[pos] != digits[pos])
+				return SIZE_MAX;
 	}
 	return count;
 }
